@@ -42,6 +42,36 @@ static std::vector<Fam> families()
 	return F;
 }
 
+// own Gauss-Legendre rule on [-1,1] in long double (Newton on the three-term recurrence)
+static void gl_ref(int n, std::vector<ld>& z, std::vector<ld>& w)
+{
+	z.assign(n, 0);
+	w.assign(n, 0);
+	for(int i = 0; i < n; i++)
+	{
+		ld x = cosl(M_PIl * (i + 0.75L) / (n + 0.5L)), pp = 1;
+		for(int it = 0; it < 100; it++)
+		{
+			ld p1 = 1, p2 = 0;
+			for(int j = 0; j < n; j++) { ld p3 = p2; p2 = p1; p1 = ((2 * j + 1) * x * p2 - j * p3) / (j + 1); }
+			pp	  = n * (x * p1 - p2) / (x * x - 1);
+			ld dx = p1 / pp;
+			x -= dx;
+			if(fabsl(dx) < 1e-19L) break;
+		}
+		z[i] = x;
+		w[i] = 2 / ((1 - x * x) * pp * pp);
+	}
+}
+static ld gl_integral(const std::function<ld(ld)>& f, ld a, ld b, int n)
+{
+	std::vector<ld> z, w;
+	gl_ref(n, z, w);
+	ld s = 0, c = (a + b) / 2, h = (b - a) / 2;
+	for(int i = 0; i < n; i++) s += w[i] * f(c + h * z[i]);
+	return s * h;
+}
+
 // condition number of the integral: int |f| / |int f| (composite Simpson in long double, 1% is enough)
 static ld kappa(const Fam& F, ld a, ld b)
 {
@@ -80,7 +110,8 @@ static void adaptive_methods_wide(unsigned long long& unit)
 static void one_dimensional(unsigned long long& unit)
 {
 	auto F = families();
-	std::vector<std::pair<double, double>> ivs = {{0, 1}, {-1, 2}, {0, 2}, {-0.5, 0.5}};
+	// (the last three: non-empty intervals narrower than any absolute width threshold; the integral is f(mid)*width to 1e-9)
+	std::vector<std::pair<double, double>> ivs = {{0, 1}, {-1, 2}, {0, 2}, {-0.5, 0.5}, {1, 1 + std::ldexp(1.0, -41)}, {0, 1e-13}, {-3e-14, 2e-14}};
 	if(mc::shard0()) { mc::alphabet("methods", METHODS.size()); mc::alphabet("integrand_families", F.size()); mc::alphabet("intervals_1d", ivs.size()); }
 	for(auto& fam : F)
 		for(auto& iv : ivs)
@@ -88,13 +119,16 @@ static void one_dimensional(unsigned long long& unit)
 			if(!mc::mine(unit++)) continue;
 			// at most two periods of the oscillation on the interval
 			ld ex = fam.exact(iv.first, iv.second);
+			// narrow intervals: the closed forms are differences of nearly equal numbers; a 24-point rule in long double is exact to 1e-18 there
+			if(std::fabs(iv.second - iv.first) < 1e-6) ex = gl_integral(fam.f, iv.first, iv.second, 24);
 			if(fam.name.rfind("damped", 0) == 0)
 			{
 				double om = mc::parsed(fam.name.substr(fam.name.find("_w") + 2));
 				if(om * (iv.second - iv.first) > 4 * M_PI + 1e-9) { mc::count("cases_outside_family_more_than_two_periods", 1); continue; }
 			}
-			if(fabsl(ex) < 1e-6L) { mc::count("cases_skipped_integral_vanishes", 1); continue; }
+			if(ex == 0) { mc::count("cases_skipped_integral_vanishes", 1); continue; }
 			ld kap = kappa(fam, iv.first, iv.second);
+			if(kap > 1e6L || fabsl(ex) < 1e-6L * fabsl((ld)iv.second - iv.first)) { mc::count("cases_skipped_integral_vanishes", 1); continue; }
 			for(auto& m : METHODS)
 				for(int par : {0, 1})
 				{
@@ -111,10 +145,74 @@ static void one_dimensional(unsigned long long& unit)
 					else mc::maxi("rel_err_over_allowed_" + m, (double)(fabsl(v - ex) / tol), key);
 					if(!mc::same_bits(vr, -v)) fail("methods1d", key, "reversed_limits_not_negation", "I(a,b) = " + mc::dec(v) + " I(b,a) = " + mc::dec(vr));
 					if(v0 != 0.0) fail("methods1d", key, "equal_limits_not_zero", "I(a,a) = " + mc::dec(v0));
+					// the integration variable stays in its interval (up to the rounding of the rule's affine map: 4 ulp of the end points)
+					double slack = 4 * mc::U_ * 2 * std::max(std::fabs(iv.first), std::fabs(iv.second));
 					for(double x : xs)
-						if(!(x >= iv.first && x <= iv.second)) { fail("methods1d", key, "evaluated_outside_interval", "evaluated at " + mc::dec(x)); break; }
+						if(!(x >= iv.first - slack && x <= iv.second + slack)) { fail("methods1d", key, "evaluated_outside_interval", "evaluated at " + mc::dec(x)); break; }
 				}
 		}
+}
+
+// ---- call histories: no request depends on the requests made before it -------------------------------------------------------
+static void call_histories(unsigned long long& unit)
+{
+	auto f	 = [](double x) { return std::exp(-0.5 * x) * std::cos(2 * x) + 0.25 * x; };
+	auto fl	 = [](ld x) { return expl(-0.5L * x) * cosl(2 * x) + 0.25L * x; };
+	auto fxy = [&](double x, double y) { return f(x) * (1 + y * y); };
+	auto fxyz = [&](double x, double y, double z) { return f(x) * (1 + y * y) * std::exp(-z); };
+	struct Letter { const char* name; std::function<double()> call; int gl_points; double a, b; };
+	std::vector<Letter> L = {
+		{"GL2(0,1,default)", [&]() { return Integrate(f, 0, 1, "Gauss-Legendre_2", 0); }, 30, 0, 1},
+		{"GL2(0,1,3)", [&]() { return Integrate(f, 0, 1, "Gauss-Legendre_2", 3); }, 3, 0, 1},
+		{"GL2(0,1,6)", [&]() { return Integrate(f, 0, 1, "Gauss-Legendre_2", 6); }, 6, 0, 1},
+		{"GL2(1,0,4)", [&]() { return Integrate(f, 1, 0, "Gauss-Legendre_2", 4); }, 4, 1, 0},
+		{"GL2(-1,2,3)", [&]() { return Integrate(f, -1, 2, "Gauss-Legendre_2", 3); }, 3, -1, 2},
+		{"Integrate_Gauss_Legendre(0,1,5)", [&]() { return Integrate_Gauss_Legendre(f, 0, 1, 5); }, 5, 0, 1},
+		{"Gauss-Legendre(0,1)", [&]() { return Integrate(f, 0, 1, "Gauss-Legendre", 0); }, 0, 0, 1},
+		{"Gauss-Kronrod(0,1)", [&]() { return Integrate(f, 0, 1, "Gauss-Kronrod", 0); }, 0, 0, 1},
+		{"Tanh-Sinh(0,1)", [&]() { return Integrate(f, 0, 1, "Tanh-Sinh", 0); }, 0, 0, 1},
+		{"Trapezoidal(0,1)", [&]() { return Integrate(f, 0, 1, "Trapezoidal", 0); }, 0, 0, 1},
+		{"Adaptive-Simpson(0,1)", [&]() { return Integrate(f, 0, 1, "Adaptive-Simpson", 0); }, 0, 0, 1},
+		{"2D GL2(0,1;0,1;4)", [&]() { return Integrate_2D(fxy, 0, 1, 0, 1, "Gauss-Legendre_2", 4); }, 0, 0, 1},
+		{"3D GL2(0,1;0,1;0,1;2)", [&]() { return Integrate_3D(fxyz, 0, 1, 0, 1, 0, 1, "Gauss-Legendre_2", 2); }, 0, 0, 1},
+		{"2D Gauss-Kronrod(0,1;0,1)", [&]() { return Integrate_2D(fxy, 0, 1, 0, 1, "Gauss-Kronrod", 0); }, 0, 0, 1},
+	};
+	int n = L.size(), depth = mc::thorough() ? 4 : 3;
+	if(mc::shard0()) { mc::alphabet("history_letters", n); mc::bound("call_history_depth", std::to_string(depth)); }
+	std::vector<double> first(n);
+	std::vector<bool> have(n, false);
+	long long total = 1;
+	for(int i = 0; i < depth; i++) total *= n;
+	for(long long code = 0; code < total; code++)
+	{
+		if(!mc::mine(unit + (code >> 4))) continue;
+		std::vector<int> seq;
+		long long c = code;
+		for(int i = 0; i < depth; i++) { seq.push_back(c % n); c /= n; }
+		std::string hist;
+		for(int i = 0; i < depth; i++)
+		{
+			double v = 0;
+			int l = seq[i];
+			if(mc::library_exits([&]() { v = L[l].call(); })) { fail("histories", hist + L[l].name, "terminated_process", "valid request ended the process"); break; }
+			g_cases++;
+			mc::count("history_transitions", 1);
+			if(!have[l])
+			{
+				have[l] = true;
+				first[l] = v;
+				// explicit node counts: the result is that of the n-point rule
+				if(L[l].gl_points)
+				{
+					ld ref = gl_integral(fl, L[l].a, L[l].b, L[l].gl_points);
+					if(!(fabsl(v - ref) <= 1e-13L * fabsl(ref))) fail("histories", hist + L[l].name, "not_the_rule_with_the_requested_node_count", "returned " + mc::dec(v) + ", the " + std::to_string(L[l].gl_points) + "-point Gauss-Legendre rule gives " + mc::dec((double)ref));
+				}
+			}
+			else if(!mc::same_bits(v, first[l])) fail("histories", hist + L[l].name, "result_depends_on_earlier_calls", std::string(L[l].name) + " returned " + mc::dec(v) + " after [" + hist + "] but " + mc::dec(first[l]) + " after another history");
+			hist += std::string(L[l].name) + ";";
+		}
+	}
+	unit += (total >> 4) + 1;
 }
 
 // ---- nested 2D / 3D ----------------------------------------------------------------------------------------------------
@@ -245,6 +343,7 @@ int main(int argc, char** argv)
 	one_dimensional(unit);
 	adaptive_methods_wide(unit);
 	nested(unit);
+	call_histories(unit);
 	mc::count("evaluations", g_cases);
 	mc::count("distinct_nontrivial", g_cases);
 	if(mc::shard0()) mc::sample("Integrate_3D(gx(x)*gy(y)*gz(z), x:1->0, y:2->3.5, z:7.25->5, 'Gauss-Kronrod'): every recorded x in [0,1], y in [2,3.5], z in [5,7.25]; result = (+1)(-1)(-1) * Ix*Iy*Iz");
